@@ -503,20 +503,41 @@ def run_nav(case):
         # the batch lists: next-batches is the list of windows that following
         # the next links goes through; previous-batches is the chain of
         # announced previous batches
-        order = sorted(states)
-        for i, (s, e) in enumerate(order):
+        # ... judged at the window of *every* start 1..L (a start typed by
+        # hand need not be one the walk from element 1 goes through)
+        wcache = {}
+
+        def win(start):
+            if start not in wcache:
+                wcache[start] = window(start)
+            return wcache[start]
+        for s0 in range(1, L + 1):
+            r0 = win(s0)
+            if not r0:
+                continue
+            s, e = r0[0]['n'], r0[-1]['n']
             res.evals += 1
-            got = render_batches(L, s, size, orphan, overlap)
-            if got is None or got[1] != order[i + 1:]:
+            got = render_batches(L, s0, size, orphan, overlap)
+            follow, r = [], r0
+            while r and r[-1]['next'] and r[-1]['ninfo'] and \
+                    len(follow) <= L:
+                nxt = r[-1]['ninfo'][0]
+                if nxt <= r[0]['n']:
+                    break
+                r = win(nxt)
+                if not r:
+                    break
+                follow.append((r[0]['n'], r[-1]['n']))
+            if got is None or got[1] != follow:
                 res.violate('nav', 'nav:next-batches',
                             {'window': [s, e], 'next_batches': got and got[1],
-                             'windows_reached': order[i + 1:]}, case)
+                             'windows_reached': follow}, case)
                 return res
-            chain, cs, r = [], s, states[(s, e)]
+            chain, cs, r = [], s, r0
             while cs > 1 and r and r[0]['pinfo'] and len(chain) <= L:
                 ps, pe, pz = r[0]['pinfo']
                 chain.append((ps, pe))
-                r = states.get((ps, None)) or window(ps)
+                r = win(ps)
                 cs = ps
             chain.reverse()     # listed from the beginning of the sequence
             if got[0] != chain:
